@@ -18,6 +18,7 @@ RULE = (
     'except for the identity cells'
     '; pass 5: coinciding sizes (M=1, N=1, M=N, all equal to the batch size); inputs at / near / single-precision copies of the inducing points; training-mode calls under no_grad before and after a parameter update'
     '; pass 6: negative raw scales / negative factor diagonals as valid states; CIQ with 26 well-spread inducing points'
+    "; pass 8: the whole svgp cell under trace_mode / with debug off; calls with another broadcast batch shape (all strategies incl. BatchDecoupled) compared with the first call itself"
 )
 REQUIRED = ["qu_encodes_parameters", "qf_mean", "qf_mean_skipvar", "qf_covar", "qf_train_variance", "kl_closed_form", "qu_equals_prior_gives_prior", "whitened_equals_unwhitened", "lmc_mixing", "indep_mixing", "grid_interp_qf", "bdvs_qf", "orth_decoupled_qf", "orth_decoupled_kl"]
 ASSUMPTIONS = [
